@@ -160,8 +160,59 @@ func registerStrings(ex *Explorer) {
 	})
 }
 
+func registerFilesAndTime(ex *Explorer) {
+	// protoio delimited codec = the plain proto stub
+	ex.register("github.com/tendermint/tendermint/libs/protoio.MarshalDelimited", func(fr *frame, args []value) value {
+		return fr.i.marshalAny(fr, args[0], modeProto, "proto")
+	})
+	ex.register("github.com/tendermint/tendermint/libs/protoio.UnmarshalDelimited", func(fr *frame, args []value) value {
+		return fr.i.unmarshalAny(fr, args[0], args[1], modeProto)
+	})
+	ex.register("github.com/gogo/protobuf/proto.Equal", func(fr *frame, args []value) value {
+		a, b := args[0].(iface), args[1].(iface)
+		if a.t == nil || b.t == nil {
+			return a.t == nil && b.t == nil
+		}
+		sa := fr.i.snapOf(fr, a.v, a.t, modeProto, true)
+		sb := fr.i.snapOf(fr, b.v, b.t, modeProto, true)
+		return mkScalar(fr.i.ctx, types.Bool, snapEq(sa, sb))
+	})
+	// clocks: node-local, never part of a result (C01) – a fixed instant
+	zeroTime := func(fr *frame, args []value) value { return zero(namedType(fr, "time", "Time")) }
+	ex.register("time.Now", zeroTime)
+	ex.register("github.com/tendermint/tendermint/types/time.Now", zeroTime)
+	// a tiny file system: path -> content; paths below /nonexistent/ fail
+	files := func(c *pathCtx) map[string][]value {
+		if c.scratch["files"] == nil {
+			c.scratch["files"] = map[string][]value{}
+		}
+		return c.scratch["files"].(map[string][]value)
+	}
+	ex.register("github.com/tendermint/tendermint/libs/tempfile.WriteFileAtomic", func(fr *frame, args []value) value {
+		name := args[0].(string)
+		if strings.HasPrefix(name, "/nonexistent/") {
+			return fr.i.newError("open " + name + ": no such file or directory")
+		}
+		fr.i.ctx.world.durable("file:"+name, "write")
+		files(fr.i.ctx)[name] = args[1].([]value)
+		return iface{}
+	})
+	ex.register("os.ReadFile", func(fr *frame, args []value) value {
+		name := args[0].(string)
+		b, ok := files(fr.i.ctx)[name]
+		if !ok {
+			return tuple{[]value(nil), fr.i.newError("open " + name + ": no such file or directory")}
+		}
+		return tuple{b, iface{}}
+	})
+	ex.register("time.runtimeNano", func(fr *frame, args []value) value { return int64(0) })
+	ex.register("time.now", func(fr *frame, args []value) value { return tuple{int64(0), int32(0), int64(0)} })
+	ex.register("os.MkdirAll", func(fr *frame, args []value) value { return iface{} })
+}
+
 func registerMisc(ex *Explorer) {
 	registerStrings(ex)
+	registerFilesAndTime(ex)
 	// transaction hash: injective on the identity of the encoded bytes
 	ex.register("(github.com/tendermint/tendermint/types.Tx).Hash", func(fr *frame, args []value) value {
 		b := args[0].([]value)
